@@ -242,7 +242,7 @@ Proof.
     cbn [step astep]. cbn [op_ok] in Hop.
     destruct (do_encode_spec n a HR) as (HR' & En & Cn & Ln).
     rewrite En. cbn [odefault].
-    unfold a_raw at 1. rewrite decode_encode by (apply a_wf; assumption).
+    unfold a_raw. rewrite decode_encode by (apply a_wf; assumption).
     cbn [fst snd]. split; [reflexivity|]. split; [|exact L].
     unfold R, of_decoded. cbn [fst snd n_links n_dirty n_data n_enc n_cached n_builder a_links a_data a_builder].
     repeat split; try discriminate.
